@@ -4,6 +4,7 @@ import QR.Proofs.Finite
 import QR.Proofs.ReadBack
 import QR.Props.C03
 import QR.Props.C09
+import QR.Proofs.SourceTie
 /-
 C05 - function patterns, geometry and data placement of every symbol.
 Finite part: alignment table = Annex E closed form, mask functions = ISO Table 10.
@@ -200,5 +201,31 @@ theorem C05_compile (cfg : Model.Cfg) (hcfg : cfg.Valid) (l : Spec.Level) (hl : 
 example : (match Model.compile { version := 1, level := 1, mask := some 2, fit := false } [{ mode := 4, data := [104, 105] }] with
     | .ok (v, _, M) => M.size == 21 && v == 1 && M.get 13 8 == some true && M.get 6 8 == some true && M.get 7 7 == some false
     | .error _ => false) = true := by decide +kernel
+
+/-! ### tie to the source: the model's expressions are the ones translated from the current Python AST (T2) -/
+
+/-- the eight lambdas of `util.mask_func` as they stand in the source now are the ISO Table 10 conditions -/
+theorem C05_source_masks (i j : Nat) :
+    Gen.Code.mask_func_0 i j = Spec.maskCond 0 i j ∧ Gen.Code.mask_func_1 i j = Spec.maskCond 1 i j ∧
+    Gen.Code.mask_func_2 i j = Spec.maskCond 2 i j ∧ Gen.Code.mask_func_3 i j = Spec.maskCond 3 i j ∧
+    Gen.Code.mask_func_4 i j = Spec.maskCond 4 i j ∧ Gen.Code.mask_func_5 i j = Spec.maskCond 5 i j ∧
+    Gen.Code.mask_func_6 i j = Spec.maskCond 6 i j ∧ Gen.Code.mask_func_7 i j = Spec.maskCond 7 i j := by
+  obtain ⟨h0, h1, h2, h3, h4, h5, h6, h7⟩ := QR.SourceTie.masks i j
+  exact ⟨h0.trans (C05_mask 0 i j (by omega)), h1.trans (C05_mask 1 i j (by omega)), h2.trans (C05_mask 2 i j (by omega)),
+    h3.trans (C05_mask 3 i j (by omega)), h4.trans (C05_mask 4 i j (by omega)), h5.trans (C05_mask 5 i j (by omega)),
+    h6.trans (C05_mask 6 i j (by omega)), h7.trans (C05_mask 7 i j (by omega))⟩
+
+/-- `map_data`'s column loop (`range(n - 1, 0, -2)`, `if col <= 6: col -= 1`) is the model's `pairCol` -/
+theorem C05_source_columns (n k : Nat) :
+    Model.pairCol n k = Gen.Code.map_col_adjust (n - 1 - 2 * k) ∧ ∀ m : Int, Gen.Code.map_col_range m = (m - 1, 0, -2) :=
+  ⟨QR.SourceTie.pairCol_eq n k, QR.SourceTie.colRange⟩
+
+/-- `makeImpl` calls the pattern/placement helpers the model composes, in the model's order (finders, alignment, timing,
+    format, version, create_data, map_data) -/
+theorem C05_source_structure :
+    Gen.Code.makeImpl_calls = ["self.setup_position_probe_pattern", "self.setup_position_probe_pattern",
+      "self.setup_position_probe_pattern", "self.setup_position_adjust_pattern", "self.setup_timing_pattern",
+      "self.setup_type_info", "self.setup_type_number", "util.create_data", "self.map_data"] :=
+  QR.SourceTie.structure_eq.1
 
 end QR.Props
